@@ -30,8 +30,9 @@ ASSUMPTIONS = ["lambda bodies come from the generated family and are only applie
                "container-kind-sensitive followers (indexer, sequence * n, isList/..., insert at a negative position) are only "
                "applied to receivers whose kind is a documented fact (sources, toList, splitAt, dict views), so that a rewrite "
                "returning a tuple instead of an iterator is not reported",
-               "not modelled: mergeWith on NESTED dictionaries (values of the universe are null/bool/int/sequences), "
-               "groupBy aggregators other than $.len()/$.sum()/$.first() and their pre-1.1.1 spelling, strings"]
+               "dict elements are compared in insertion order (Python: order-free); generated dict elements are built with "
+               "their keys in one order; groupBy aggregators are $ + a list->list pipeline + len/sum/first/toList (and the "
+               "pre-1.1.1 spelling); strings are over [a-zA-Z]"]
 EXPLANATION = ("Coq proofs about the list model (stable sort, grouping, algebraic laws, streaming == list semantics) + "
                "in-Coq differential check of the lazy model against queries.py/collections.py on boundary grids and random pipelines")
 ALLOWED_AXIOMS = []
